@@ -84,7 +84,8 @@ Definition dsl_to_string (st : dsl_store) (v : dsl_val) : dsl_sres :=
   | DvArr _ | DvDict _ => if dsl_cyclic st v then SrAbort DaCycle else SrAbort DaDomain
   | DvType t => SrOk ("type '" ++ dsl_type_name t ++ "'")           (* Type::ToString *)
   | DvRef _ => SrOk "Object of type 'Reference'"                    (* Object::ToString *)
-  | _ => SrAbort DaDomain
+  | DvFun _ | DvNat _ => SrOk "Object of type 'Function'"
+  | DvNs _ | DvSys | DvJson | DvTypes => SrOk "Object of type 'Namespace'"
   end.
 
 (* ------------------------------------------------------------------ == *)
